@@ -35,6 +35,22 @@ pub fn in_name() -> &'static str {
     match in_kind().as_str() { "gzm" => "in.fa.gz", "fq" => "in.fq", "fqgz" => "in.fastq.gz", "wrap" => "in.fasta", "crlf" => "in.fna", _ => "in.fa" }
 }
 
+/// identifier of record i in the generated inputs: `r<i>`; VERIF_IDS=dup gives every two consecutive records the same
+/// identifier; VERIF_IDS=noid writes header lines without an identifier (` free text <i>`)
+pub fn rec_id(i: usize) -> String {
+    match std::env::var("VERIF_IDS").unwrap_or_default().as_str() {
+        "dup" => format!("r{}", i / 2),
+        "noid" => format!(" free text {}", i),
+        _ => format!("r{}", i),
+    }
+}
+pub fn with_ids(kind: &str, f: impl FnOnce() -> Option<Vec<(String, String)>>) -> Option<Vec<(String, String)>> {
+    std::env::set_var("VERIF_IDS", kind);
+    let w = f();
+    std::env::remove_var("VERIF_IDS");
+    w.map(|mut w| { w.push(("ids".into(), kind.to_string())); w })
+}
+
 pub fn write_fasta(path: &str, recs: &[Vec<u8>]) {
     use std::io::Write;
     let kind = in_kind();
@@ -43,23 +59,23 @@ pub fn write_fasta(path: &str, recs: &[Vec<u8>]) {
         for (i, r) in recs.iter().enumerate().skip(from).take(to - from) {
             match kind.as_str() {
                 "fq" | "fqgz" => {
-                    s.extend_from_slice(format!("@r{} length={}\n", i, r.len()).as_bytes());
+                    s.extend_from_slice(format!("@{} length={}\n", rec_id(i), r.len()).as_bytes());
                     s.extend_from_slice(r);
                     s.extend_from_slice(b"\n+\n");
                     for j in 0..r.len() { s.push(b"@I+5;>#"[(j + r.len()) % 7]); }
                     s.push(b'\n');
                 }
                 "wrap" => {
-                    s.extend_from_slice(format!(">r{} wrapped\n", i).as_bytes());
+                    s.extend_from_slice(format!(">{} wrapped\n", rec_id(i)).as_bytes());
                     for ch in r.chunks(7) { s.extend_from_slice(ch); s.push(b'\n'); }
                 }
                 "crlf" => {
-                    s.extend_from_slice(format!(">r{}\r\n", i).as_bytes());
+                    s.extend_from_slice(format!(">{}\r\n", rec_id(i)).as_bytes());
                     s.extend_from_slice(r);
                     if i + 1 < recs.len() { s.extend_from_slice(b"\r\n"); }
                 }
                 _ => {
-                    s.extend_from_slice(format!(">r{}\n", i).as_bytes());
+                    s.extend_from_slice(format!(">{}\n", rec_id(i)).as_bytes());
                     s.extend_from_slice(r);
                     s.push(b'\n');
                 }
